@@ -16,6 +16,7 @@ EXPLANATION = (
     "object read; the reader hands out a fresh parse on every call (no cache whose earlier mutations would leak into later files). Marker / flow-pairing rules of the "
     "overlay; sibling cross-check of the compression convention (every reader and every writer chooses gzip by the file suffix); rank-discovery agreement between "
     "the reader's regular expression and the separators of every json.dump(s) on the write path. NOT decided: contents of arbitrary source files."
+    " Later additions: rank field stored without overwriting the block, no generator consumed twice in the overlay, per-rank containers in the counter wrapper."
 )
 MUT = {"append", "extend", "insert", "pop", "remove", "clear", "sort", "reverse", "update", "setdefault", "popitem"}
 READERS = ("get_raw_trace_for_one_rank", "read_trace", "parse_trace_dict")
